@@ -20,7 +20,7 @@ EXPLANATION = (
     "rules (disabled => no effect; defuzzifier call before every write; previous value captured from the old value "
     "before the commit; lock-previous block before default block before commit), abstract interpretation of the "
     "NaN fill loop and of the range-locking setter under all assignments of their guards, origin rules for the "
-    "filler seed, the default substitution and the clipping bounds"
+    "filler seed, the default substitution and the clipping bounds; who-may-write: only the value setter assigns the backing field _value"
 )
 ASSUMPTIONS = [
     "numpy.nditer(readwrite) iterates the result in row order; numpy.clip(x, lo, hi) clips to [lo, hi]",
@@ -35,6 +35,9 @@ def run(check: Check) -> None:
     cascade(check)
     setter(check)
     clear(check)
+    from .common import who_may_write
+
+    who_may_write(check, "O6", "_value", {"Variable.value.setter"}, "every other write skips the range lock of the setter")
 
 
 def cascade(check: Check) -> None:
